@@ -91,6 +91,20 @@ def showX : XRes → String
   | .aborted c => s!"abort {c}"
   | .protocol _ => "protocol"
 
+/-- client style of a download: `E` expedited with size, `U` expedited without (0x22), `S` segmented
+    with size, `N` segmented without (0x20) -/
+def parseStyle (s : String) : Option DownStyle :=
+  if s = "E" then some .expSized else if s = "U" then some .expUnsized
+  else if s = "S" then some .segSized else if s = "N" then some .segUnsized else none
+
+/-- `i.j,i.j,…` or `-` -/
+def parseAddrs (s : String) : Option (List (Nat × Nat)) :=
+  if s = "-" then some [] else
+  (s.splitOn ",").mapM fun e =>
+    match e.splitOn "." with
+    | [i, j] => do let i ← i.toNat?; let j ← j.toNat?; pure (i, j)
+    | _ => none
+
 def preRun (n : Node) (pre : List Bytes) : Srv × Node :=
   let (s, n', _) := srvRun srvInit n pre
   (s, n')
@@ -127,6 +141,31 @@ partial def step (args : List String) : String :=
       let (_, n2, y) := refUpload s1 n1 idx sub
       s!"{showX x} | store: {showStore n1.store} | log: {showLog n1.writeLog} | readback: {showX y} | log2: {showLog n2.writeLog}"
     | _, _, _, _, _, _, _, _ => "bad-op"
+  | ["ups", od, cb, pre, idx, sub, bits, fill] =>
+    -- strict upload by a client that writes `bits` / `fill` where the server has to ignore it
+    match parseOd od, parseCb cb, parseFrames pre, idx.toNat?, sub.toNat?, bits.toNat?, parseHex fill with
+    | some od, some cb, some pre, some idx, some sub, some bits, some fill =>
+      let (s, n) := preRun (mkNode od cb) pre
+      let (_, _, x) := refUploadS ⟨bits, fill⟩ s n idx sub
+      showX x
+    | _, _, _, _, _, _, _ => "bad-op"
+  | ["downs", od, cb, pre, idx, sub, hex, style, chunks, bits, fill, post, also] =>
+    -- strict download in one of the four client styles; then the frames `post` (stray segments, other
+    -- requests); then what the node holds, a read-back by the same client, and uploads of the addresses `also`
+    match parseOd od, parseCb cb, parseFrames pre, idx.toNat?, sub.toNat?, parseHex hex, parseStyle style,
+      parseNatList chunks, bits.toNat?, parseHex fill, parseFrames post, parseAddrs also with
+    | some od, some cb, some pre, some idx, some sub, some data, some st, some chunks, some bits, some fill,
+      some post, some also =>
+      let v : Rsv := ⟨bits, fill⟩
+      let (s, n) := preRun (mkNode od cb) pre
+      let (s1, n1, x) := refDownloadS v s n idx sub data st chunks
+      let (s2, n2, _) := srvRun s1 n1 post
+      let (s3, n3, y) := refUploadS v s2 n2 idx sub
+      let (_, n4, zs) := refUploadsS v s3 n3 also
+      let alsoS := if also.isEmpty then "-" else
+        String.intercalate ";" ((also.zip zs).map fun ((i, j), z) => s!"{i}.{j}={showX z}")
+      s!"{showX x} | store: {showStore n2.store} | log: {showLog n2.writeLog} | readback: {showX y} | also: {alsoS} | log2: {showLog n4.writeLog}"
+    | _, _, _, _, _, _, _, _, _, _, _, _ => "bad-op"
   | _ => "bad-op"
 
 end Canopen.Driver.C02
